@@ -76,6 +76,8 @@ type Program struct {
 	refKeys    map[string]bool
 	refKeyOf   map[string]string
 	refSkips   map[string][]string
+	// Canonicalised: number of `r := e; return r` shapes folded into `return e` before analysis (canon.go)
+	Canonicalised int
 	litKeys    []litKeyName
 	inlined    map[string]string // "pkg|recv|name" of a vanished function -> key of the only caller it had
 }
@@ -171,6 +173,7 @@ func Load(dir string, overlay map[string][]byte) (*Program, error) {
 			}
 		}
 	}
+	p.Canonicalised = p.canonicaliseReturns()
 	p.resolveRenames()
 	sort.Slice(p.Funcs, func(i, j int) bool { return p.Funcs[i].Key() < p.Funcs[j].Key() })
 	facts.InlineHook = p.InlineBool
